@@ -146,6 +146,93 @@ def storage_iface(ctx, rr):
         if not ok:
             rr.fail(ctx.finding('R-STORAGE-IFACE', r, r.node, '%s.read() without a block does not continue right after the last block read: %s'
                                 % (cls, why), stmt='%s.read cursor' % cls))
+    # block 0 is a valid address (the header): a storage method may test its block argument for None-ness only
+    for cls in STORAGES:
+        for name, m in P.classes[cls].items():
+            if 'block' not in m.params:
+                continue
+            for t in ast.walk(m.node):
+                bad = None
+                if isinstance(t, (ast.If, ast.While, ast.IfExp)):
+                    from ..dataflow import test_leaves
+                    for leaf in test_leaves(t.test):
+                        if isinstance(leaf, ast.Name) and leaf.id == 'block':
+                            bad = leaf
+                if isinstance(t, ast.BoolOp):
+                    for v in t.values[:-1]:
+                        if isinstance(v, ast.Name) and v.id == 'block':
+                            bad = v
+                if bad is not None:
+                    rr.ob(ctx.where(m, bad), '%s.%s tests its block argument for None-ness, not truthiness' % (cls, name), ok=False)
+                    rr.fail(ctx.finding('R-STORAGE-IFACE', m, bad, '%s.%s tests `block` for truthiness: block address 0 (the header block) is then treated like "no block '
+                                        'given" (appended / read at the cursor instead of at offset 0)' % (cls, name)))
+            rr.ob(ctx.where(m), '%s.%s distinguishes "no block" from block 0 by None-ness' % (cls, name), ok=True)
+    # cursor continuity: a cursor-relative read() must directly follow a read on the same storage - any other storage call
+    # in between (len(), count_blocks, write, ...) may move the cursor of the file back-end
+    for u in P.units:
+        if u.cls in STORAGES:
+            continue
+        rel = [c for c in P.own(u, ast.Call) if any(t.cls in STORAGES and t.name == 'read' for t in P.targets(c)) and not c.args and not c.keywords]
+        if not rel:
+            continue
+        g = ctx.cfg(u)
+        from ..cfg import solve_forward
+        from ..dataflow import node_root, calls_in_order
+
+        def storage_event(c, u=u):
+            if any(t.cls in STORAGES for t in P.targets(c)):
+                return 'read' if isinstance(c.func, ast.Attribute) and c.func.attr == 'read' else 'other'
+            if isinstance(c.func, ast.Name) and c.func.id == 'len' and c.args and P.expr_classes(u, c.args[0]) & set(STORAGES):
+                return 'other'
+            return None
+
+        def transfer(nd, st, u=u, check=None):
+            root = node_root(nd)
+            if root is None:
+                return st
+            for c in calls_in_order(P, u, root):
+                e = storage_event(c)
+                if e == 'read':
+                    if check is not None and not c.args and not c.keywords:
+                        check(c, st)
+                    st = True
+                elif e == 'other':
+                    st = False
+            return st
+        IN = solve_forward(g, False, transfer, lambda lab, st: st, lambda a, b: a and b)
+        seen_c = {}
+
+        def check(c, st):
+            seen_c[id(c)] = (c, seen_c.get(id(c), (c, True))[1] and st)
+        for nd in g.nodes:
+            if nd.id in IN:
+                transfer(nd, IN[nd.id], check=check)
+        for c, ok in seen_c.values():
+            rr.ob(ctx.where(u, c), 'cursor-relative `%s` directly follows another read of the same store on every path' % ast.unparse(c), ok=ok)
+            if not ok:
+                rr.fail(ctx.finding('R-STORAGE-IFACE', u, c, 'a storage call that may move the file cursor (len(), count_blocks(), write() ...) lies between the positioned read and '
+                                    'this cursor-relative `read()`: on the file back-end the tail is read from the wrong place (the memory back-end is unaffected)'))
+    # corruption check: reports corruption exactly when the length is not a whole number of blocks
+    fs = P.classes['FileStorage'].get('check_for_corruption')
+    if fs is None:
+        raise AnalysisError('anchor vanished: FileStorage.check_for_corruption')
+    from .table_rules import tables
+    rows = tables(ctx, fs, iters=1)
+    bad = []
+    for r in rows:
+        ret = [e for e in r.events if e.kind == 'return']
+        mod = [(k, v) for k, v in r.val.items() if 'Mod' in k or '%' in r.src.get(k, '')]
+        if not ret:
+            continue
+        val = ret[0].text
+        if not mod:
+            bad.append((r, 'a verdict is returned without looking at length %% block_size'))
+        elif (val == 'True') != bool(mod[-1][1]):
+            bad.append((r, 'returns %s although length %% block_size is %s' % (val, 'non-zero' if mod[-1][1] else 'zero')))
+    rr.ob(ctx.where(fs), 'check_for_corruption is true exactly when the file length is not a multiple of the block size (%d rows)' % len(rows), ok=not bad)
+    for r, msg in bad:
+        rr.fail(ctx.finding('R-STORAGE-IFACE', fs, fs.node, 'FileStorage.check_for_corruption: %s: a partially written block can be accepted on reopen' % msg,
+                            stmt='check_for_corruption table', detail={'row': r.show()[:300]}))
     rr.info.update({'protocol_sites': n_proto, 'facade_sites': n_facade})
 
 
